@@ -216,7 +216,9 @@ I64MinDur == NM!I64Min
 InI64(n) == NM!InI64(n)
 
 \* exact double arithmetic where the specification can decide it (see DblArith), else unknown
-DblArithHook(op, a, b) == D(R(AnyDbl))
+DblArithHook(op, a, b) ==
+  IF a.b = << >> \/ b.b = << >> THEN D(R(AnyDbl))
+  ELSE LET r == DB!ArithExact(op, a.b, b.b) IN IF r = << >> THEN D(R(AnyDbl)) ELSE R(VDbl(r))
 
 Arith(op, a, b) ==
   IF a.t = "int" /\ b.t = "int" THEN FromNum("int", NM!Apply(op, "int", a.n, b.n))
